@@ -217,7 +217,7 @@ func partB(run *hx.Run, r *hx.Rand) {
 		return
 	}
 	b := &bufRun{bin: bin, home: root, run: run}
-	n := run.N(5, 24)
+	n := run.N(4, 23) // was (5, 24) until Part O (parto.go) took its seconds
 	if !on("b") {
 		n = 0
 	}
@@ -263,6 +263,8 @@ func partB(run *hx.Run, r *hx.Rand) {
 	timed("B4", on("b4"), func() { partB4(run, r.Fork(7000), b, root) })
 	// X3: the extension bits through the real binary (partx.go)
 	timed("X3", on("x3") && len(xBuiltWS) > 0, func() { partX3(run, r.Fork(9000), b, xBuiltWS) })
+	// O2: output-file histories through the real binary (parto.go)
+	timed("O2", on("o2") && len(oWorkspaces) > 0, func() { partO2(run, r.Fork(9500), b) })
 	run.Set("buf_process_runs", b.count)
 }
 
